@@ -43,6 +43,20 @@ theorem mem_swapRemove_of_nodup {l : List Chan} {i : Nat} (hn : (ids l).Nodup) (
     obtain ⟨j, hj, rfl⟩ := List.getElem_of_mem hc
     exact ⟨j, hj, by intro e; subst e; exact hne rfl, rfl⟩
 
+/-- positions below `i` are untouched by a swap-remove of position `i` -/
+theorem swapRemove_getElem?_lt {l : List Chan} {i j : Nat} (h : j < i) :
+    (swapRemove l i)[j]? = l[j]? := by
+  unfold swapRemove
+  split
+  · simp [List.getElem?_take, h]
+  · rename_i z hz
+    have hne : l.drop (i + 1) ≠ [] := by
+      intro h0; rw [h0] at hz; cases hz
+    have : 0 < (l.drop (i + 1)).length := List.length_pos_iff.mpr hne
+    simp only [List.length_drop] at this
+    rw [List.getElem?_append_left (by simp [List.length_take]; omega)]
+    simp [h]
+
 theorem idxOf_spec (l : List Chan) (x k i : Nat) (h : idxOf l x k = some i) :
     ∃ hi : i - k < l.length, (l[i - k]).id = x ∧ k ≤ i := by
   induction l generalizing k with
@@ -103,15 +117,10 @@ theorem rifIdxs_spec (cap : Nat) (p : Chan → Bool) (fuel : Nat) (l : List Chan
           intro j hj hji
           have hmem : (swapRemove l i)[j] ∈ swapRemove l i := List.getElem_mem hj
           -- positions below `i` are untouched by the swap-remove
-          have : (swapRemove l i)[j] = l[j]'(by omega) := by
-            have hj' : j < l.length := by omega
-            simp only [swapRemove]
-            cases (l.drop (i + 1)).getLast? with
-            | none => simp [List.getElem_take]
-            | some z =>
-              simp only
-              rw [List.getElem_append_left (by simp [List.length_take]; omega)]
-              simp [List.getElem_take]
+          have hj' : j < l.length := by omega
+          have h1 := swapRemove_getElem?_lt (l := l) hji
+          rw [List.getElem?_eq_getElem hj, List.getElem?_eq_getElem hj'] at h1
+          have : (swapRemove l i)[j] = l[j] := Option.some.inj h1
           rw [this]; exact hpre j (by omega) hji)
         refine ⟨fun c => ?_, hrec.2⟩
         rw [hrec.1 c, mem_swapRemove_of_nodup hn hi]
